@@ -213,7 +213,8 @@ def run_query(q, pid, tier, seed, bdir_root, log):
     res = {'query': q.name, 'harness': q.harness, 'entry': q.entry, 'defines': list(q.defines), 'bounds': q.bounds, 'what': q.what,
            'unwind': q.unwind, 'mode': 'path-wise symbolic execution (--paths lifo)' if q.paths else ('merged BMC, SMT back end cvc5 --solve-bv-as-int=sum (integer encoding of the mod-2^k arithmetic)' if q.solver == 'cvc5int' else 'merged BMC, SAT back end ' + q.solver),
            'memory_model': 'SC/latest-value' if q.vra == 'sc' else 'release/acquire views ' + json.dumps(q.vra)}
-    tmo = q.timeout or (170 if tier == 'quick' else 1500)
+    # generous caps (a loaded or slower machine must not turn a 200 s proof into an 'inconclusive'): floor 900 s quick, 1700 s thorough
+    tmo = max(q.timeout or 0, 900 if tier == 'quick' else 1700)
     try:
         b = build_c(q, bdir, log)
         res.update(hooks=b['hooks'], zero_stubs=b['zero_stubs'], functions_encoded=len(b['translated']), forbidden_functions=len(b['forbidden']), cuts=b['cut'], atomics=len(b['atomics']), build_s=b['build_s'])
